@@ -15,7 +15,7 @@ MANIFEST = dict(
          "wrapper with a scripted function, exception identity and pauses (virtual clock / patched sleep) compared.",
     technique="TLA+ spec + TLC exhaustive model checking; edge-complete graph replay into the implementation",
     design="5/C14")
-INVS = ["TypeOK", "CallsBound", "ExactAttempts", "NoEarlyStop", "TrueLastOutcome", "NeverRetryBase", "PausesRight"]
+INVS = ["TypeOK", "CallsBound", "ExactAttempts", "NoEarlyStop", "TrueLastOutcome", "CancelEndsCall", "NeverRetryBase", "PausesRight"]
 
 
 class E1(Exception):
@@ -77,8 +77,10 @@ class RetryDriver:
 
     def apply(self, name, args):
         from haiway import retry
-        assert name == "Attempt"
-        self.script.append(args[0])
+        assert name in ("Attempt", "CancelInPause")
+        cancel_in_pause = name == "CancelInPause"
+        if not cancel_in_pause:
+            self.script.append(args[0])
         script = list(self.script)
         objs = {}
         marks = []  # (time, timers/sleeps so far) at every invocation
@@ -133,9 +135,35 @@ class RetryDriver:
                         except BaseException as e:  # noqa: BLE001
                             return ("exc", e)
 
-                    got = loop.run_coro(outer())
+                    if cancel_in_pause:
+                        # run the scripted invocations; the wrapper then sits in its pause: cancel the caller there
+                        task = loop.create_task(outer())
+                        for _ in range(10000):
+                            loop.quiesce()
+                            if task.done() or len(marks) >= len(script):
+                                break
+                            nt = loop.next_timer()
+                            if nt is None:
+                                break
+                            loop.advance(max(nt, loop.time()))
+                        if not task.done():
+                            task.cancel()
+                            loop.run_all()
+                        got = task.result() if task.done() and not task.cancelled() else ("exc", asyncio.CancelledError())
+                        cancelled_by_caller = isinstance(got[1], asyncio.CancelledError) and got[0] == "exc"
+                    else:
+                        got = loop.run_coro(outer())
             finally:
                 loop.shutdown()
+        if cancel_in_pause:
+            calls = len(marks)
+            pauses = tuple((marks[i + 1][1] - marks[i][1], marks[i + 1][0] - marks[i][0]) for i in range(len(marks) - 1))
+            if got[0] == "exc" and isinstance(got[1], asyncio.CancelledError):
+                return dict(status="raised", calls=calls, pauses=pauses, result=99)
+            if got[0] == "exc" and isinstance(got[1], _ScriptEnd):
+                return dict(status="running", calls=calls - 1, pauses=pauses[:calls - 1], result=0)   # it called again
+            return dict(status="returned" if got[0] == "val" else "raised", calls=calls, pauses=pauses,
+                        result=f"foreign:{type(got[1]).__name__}")
         ended = got[0] == "exc" and isinstance(got[1], _ScriptEnd)
         calls = len(marks) - 1 if ended else len(marks)
         pauses = tuple((marks[i + 1][1] - marks[i][1], marks[i + 1][0] - marks[i][0])
@@ -163,6 +191,11 @@ def gen_trace(rnd, max_limit=9):
     tr = [dict(ev="Init", init=dict(cfg=cfg))]
     weights = ["caught"] * 6 + ["sub"] * 3 + ["other"] * 3 + ["uncaught", "ok", "cancelled", "base"]
     for _ in range(cfg["limit"] + 2):
+        if cfg["mode"] == "async" and cfg["delay"] != "none" and len(tr) > 1 and rnd.random() < 0.15:
+            obs = d.apply("CancelInPause", ())
+            tr.append(dict(ev="CancelInPause", args=[], obs=dict(status=obs["status"], calls=obs["calls"],
+                                                                 pauses=[list(p) for p in obs["pauses"]], result=obs["result"])))
+            break
         o = rnd.choice(weights)
         obs = d.apply("Attempt", (o,))
         tr.append(dict(ev="Attempt", args=[o], obs=dict(status=obs["status"], calls=obs["calls"],
@@ -174,8 +207,9 @@ def gen_trace(rnd, max_limit=9):
 
 TRACE_KW = dict(
     variables=["cfg", "calls", "attempt", "hist", "pauses", "status", "result", "obs"],
-    constants=dict(MaxLimit=9, Bug='"none"'), config_vars=["cfg"], actions=dict(Attempt=1),
-    invariants=["CallsBound", "ExactAttempts", "NoEarlyStop", "TrueLastOutcome", "NeverRetryBase", "PausesRight"])
+    constants=dict(MaxLimit=9, Bug='"none"'), config_vars=["cfg"], actions=dict(Attempt=1, CancelInPause=0),
+    invariants=["CallsBound", "ExactAttempts", "NoEarlyStop", "TrueLastOutcome", "CancelEndsCall", "NeverRetryBase",
+                "PausesRight"])
 
 
 def run(rep, work, tier, seed):
@@ -183,7 +217,7 @@ def run(rep, work, tier, seed):
     c = dict(MaxLimit=lim, Bug="none")
     rep.extra["constants"] = c
     leg_m(rep, work, SPEC, f"mc_{tier}", cfg_text(dict(MaxLimit=lim + 1, Bug="none"), invariants=INVS),
-          expect_actions=["Attempt"])
+          expect_actions=["Attempt", "CancelInPause"])
     if tier == "thorough":
         for bug, inv in (("off_by_one", ["CallsBound", "ExactAttempts", "NoEarlyStop"]),
                          ("retry_base", ["NeverRetryBase", "ExactAttempts", "NoEarlyStop"]),
